@@ -61,6 +61,16 @@ def build_gen(spec):
     if ty == "pn":
         bob = spec.get("bob")
         single = spec.get("single")
+        if spec.get("via_json"):
+            # the server-mode path: the same definition as Ringing Room's JSON (a missing field = default calls,
+            # an empty dictionary = a call defined nowhere)
+            from wheatley import parsing
+            js = {"type": "method", "stage": spec["stage"], "notation": spec["method"]}
+            if bob is not None:
+                js["bob"] = {str(k): v for k, v in bob}
+            if single is not None:
+                js["single"] = {str(k): v for k, v in single}
+            return parsing.json_to_row_generator(js, logging.getLogger("verif"))
         return PlaceNotationGenerator(
             spec["stage"], spec["method"],
             None if bob is None else CallDef({int(k): v for k, v in bob}),
